@@ -125,9 +125,9 @@ CHECKS["C01"] = dict(
     instances=dict(
         quick=[_world("VHNextStep", DEPTH=2, QLEN=1, BUDGET=1, VISCFG=1, must_reach=_STEP_REACH),
                _world("VHNextStep", DEPTH=1, QLEN=2, BUDGET=1, VISCFG=1, must_reach=_STEP_REACH),
-               _world("VHRevisit", STEPS=5, BUDGET=1, JUMPCAT=1, OPTJUMP=1, CMDV=1, **_REVISIT)],
+               _world("VHRevisit", STEPS=5, BUDGET=1, JUMPCAT=1, OPTJUMP=1, CMDV=1, VISITCOND=1, **_REVISIT)],
         thorough=[_world("VHNextStep", DEPTH=3, QLEN=2, BUDGET=1, VISCFG=1, workers=16, must_reach=_STEP_REACH),
-                  _world("VHRevisit", STEPS=7, BUDGET=1, JUMPCAT=1, OPTJUMP=1, CMDV=1, workers=16, **_REVISIT),
+                  _world("VHRevisit", STEPS=7, BUDGET=1, JUMPCAT=1, OPTJUMP=1, CMDV=1, VISITCOND=1, workers=16, **_REVISIT),
                   _world("VHRevisit", STEPS=5, BUDGET=2, CLAUSES=1, JUMPCAT=1, OPTJUMP=1, CMDV=1, workers=16, **_REVISIT),
                   _world("VHNextStep", DEPTH=1, QLEN=2, BUDGET=1, VISCFG=1, SECOND=1, workers=16, must_reach=_STEP_REACH),
                   _world("VHNextStep", DEPTH=1, QLEN=1, BUDGET=2, VISCFG=1, CLAUSES=1, workers=16, must_reach=_STEP_REACH)]),
@@ -221,13 +221,16 @@ CHECKS["C07"] = dict(
           "state (mid-node, exhausted, waiting for a choice, command pending/completed) yields the canonical node-entry state, an immediately "
           "taken snapshot equal to the restored one, and a following step that runs the node's first statement; the snapshot and a second "
           "runner restored from it are unaffected; an unknown node is an error that changes nothing.",
-    note="Equality of futures follows from equality of abstract states plus determinism of Next (C01/C09): stated, not re-proved. Scripts using "
-         "random functions and host storers are outside the claim.",
+    note="Equality of futures is argued from equality of abstract states plus determinism of Next (C01/C09) for the arbitrary-state harnesses, and checked "
+         "directly on runs by VHRestoreReplay. Scripts using random functions and host storers are outside the claim.",
     instances=dict(
         quick=[_world("VHSnapshotAtJump", DEPTH=1, QLEN=1, HEAD=100, VARSNAP=1, must_reach=["jumped"]),
                _world("VHRestore", DEPTH=1, QLEN=1, CMDCHAN=1, VISCFG=1, must_reach=["restored", "unknown-node", "jump-after-restore", "visit-functions-after-restore"]),
-               _world("VHRestoreHostBuilt", DEPTH=1, QLEN=1, VISCFG=1, LAST=0, must_reach=["host-built", "jump-after-host-built-restore"])],
-        thorough=[_world("VHSnapshotAtJump", DEPTH=2, QLEN=2, HEAD=100, VARSNAP=1, workers=16, must_reach=["jumped"]),
+               _world("VHRestoreHostBuilt", DEPTH=1, QLEN=1, VISCFG=1, LAST=0, must_reach=["host-built", "jump-after-host-built-restore"]),
+               _world("VHRestoreReplay", DEPTH=0, LAST=0, VISCFG=1, STEPS=3, BUDGET=1, JUMPCAT=1, OPTJUMP=1, CMDV=1, VISITCOND=1, must_reach=["entered", "replayed", "same-options", "entering-call-failed"])],
+        thorough=[_world("VHRestoreReplay", DEPTH=0, LAST=0, VISCFG=1, STEPS=6, BUDGET=1, JUMPCAT=1, OPTJUMP=1, CMDV=1, VISITCOND=1, workers=16, must_reach=["entered", "replayed", "same-options", "entering-call-failed"]),
+                  _world("VHRestoreReplay", DEPTH=0, LAST=0, STEPS=3, BUDGET=2, CLAUSES=1, JUMPCAT=1, OPTJUMP=1, CMDV=1, VISITCOND=1, workers=16, must_reach=["entered", "replayed", "same-options", "entering-call-failed"]),
+                  _world("VHSnapshotAtJump", DEPTH=2, QLEN=2, HEAD=100, VARSNAP=1, workers=16, must_reach=["jumped"]),
                   _world("VHSnapshotAtJump", DEPTH=1, QLEN=1, BUDGET=1, VARSNAP=1, workers=16, must_reach=["jumped"]),
                   _world("VHRestore", DEPTH=2, QLEN=2, CMDCHAN=1, workers=16, must_reach=["restored", "unknown-node", "jump-after-restore", "visit-functions-after-restore"]),
                   _world("VHRestoreHostBuilt", DEPTH=2, QLEN=2, CMDCHAN=1, workers=16, must_reach=["host-built", "jump-after-host-built-restore"])]),
@@ -500,7 +503,10 @@ _ADD = {
            "arbitrary doubles or integers in [-9, 9] (for which %= is decided exactly).",
     "C04": " The same line / group is rendered twice on one runner, the host rewriting every variable it reads in between (the second rendering shows "
            "the new values), optionally after a line whose inline expression failed half-way (nothing of it shows).",
-    "C07": " visited/visited_count asked through the function table of both restored runners report the snapshot's counts. Host-built snapshots (nil, "
+    "C07": " The main clause taken literally (VHRestoreReplay): the original runs a looping script (S of every kind, conditions that may read visited()) until "
+           "a call that entered a node, a snapshot is taken, and a fresh runner of the same script with its own storer is restored from it: its first "
+           "call returns what the original's entering call returned and then, for the same choices, the same elements for STEPS calls. "
+           "visited/visited_count asked through the function table of both restored runners report the snapshot's counts. Host-built snapshots (nil, "
            "empty or filled maps) restore to the state they describe and the runner then runs, jumps included, without panicking.",
     "C11": " They do so with a second runner of another history alive, and across a restore: after restoring an arbitrary snapshot they report its "
            "counts, and after the jump that follows the count of the node left is one more unless it is not tracked.",
